@@ -681,15 +681,9 @@ pub fn check_protocol(run: &mut Run, case_id: &str, p: &Prepared, ops: &[Op]) {
                         _ => false,
                     };
                     if !same {
-                        // known finding: k ≥ remaining ≥ 1 and the last value is returned
-                        let clamps = expected.is_none()
-                            && !rest.is_empty()
-                            && matches!(&got, Some(a) if dbg(a) == dbg(rest.last().unwrap()));
-                        let cls = if clamps {
-                            "gradual-nth-clamps-to-last"
-                        } else {
-                            ""
-                        };
+                        // (the former class gradual-nth-clamps-to-last is fixed in /repo: a clamping `nth`
+                        // is an ordinary, unlisted failure again)
+                        let cls = "";
                         run.fail(
                             "oracle:nth-ne-iterated-next",
                             cls,
@@ -739,18 +733,7 @@ pub fn check_adaptors(run: &mut Run, case_id: &str, p: &Prepared) {
             match got {
                 Ok(got) if got == exp => {}
                 Ok(got) => {
-                    // what a clamping `nth` makes of it: same elements plus the last value once
-                    let mut with_finding = exp.clone();
-                    if let Some(last) = plain.last() {
-                        if (plain.len() - 1) % k != 0 {
-                            with_finding.push(last.clone());
-                        }
-                    }
-                    let cls = if got == with_finding {
-                        "gradual-nth-clamps-to-last"
-                    } else {
-                        ""
-                    };
+                    let cls = "";
                     run.fail(
                         "oracle:step-by",
                         cls,
@@ -769,18 +752,7 @@ pub fn check_adaptors(run: &mut Run, case_id: &str, p: &Prepared) {
             match got {
                 Ok(got) if got == exp => {}
                 Ok(got) => {
-                    // `Skip::next` calls `nth(k)` first: a clamping `nth` returns the last value
-                    // where `None` is due
-                    let with_finding: Vec<String> = if plain.len() <= k {
-                        plain.last().cloned().into_iter().collect()
-                    } else {
-                        exp.clone()
-                    };
-                    let cls = if got == with_finding {
-                        "gradual-nth-clamps-to-last"
-                    } else {
-                        ""
-                    };
+                    let cls = "";
                     run.fail(
                         "oracle:skip",
                         cls,
